@@ -224,7 +224,7 @@ Definition judge_lock (ti tobs : tree) : tree :=
 
 Definition judge_free (ti tobs : tree) : tree :=
   match ti, tobs with
-  | T (L 0 :: _ :: T cfgs :: _), T [netdump; T trace; T ctrs; L stall_ok] =>
+  | T (L 0 :: _ :: T cfgs :: _), T [netdump; T trace; T ctrs; T [L stall_ok; L cut; T stalls]] =>
       match mapM (dec_cfg 64) cfgs with
       | None => malformed
       | Some cfgs =>
@@ -235,7 +235,24 @@ Definition judge_free (ti tobs : tree) : tree :=
               let clean := existsb (fun e => match e with TDone true => true | _ => false end) p in
               let fails := trace_ok nt p ++ (if clean then terminal_ok nt p ks else []) in
               (* (4,3): while a discarding node was stalled, the source could not finish emitting: somebody waited for it *)
-              let stall_clause := if stall_ok =? 0 then [clause 4 3 []] else [] in
+              (* (4,4): at quiescence with a discarding node d stalled, everything its feeder produced for it has been
+                 handed to it, is buffered, or was discarded and counted: nobody is waiting to deliver to it *)
+              let acct_fails (st : tree) : list Z :=
+                match st with
+                | T [L id; L lench; L disc; L c0] =>
+                    let pcut := rev (firstn (Z.to_nat c0) tr) in
+                    match index_of id nt 0 with
+                    | Some d => if Z.of_nat (length (supply nt d pcut)) =? Z.of_nat (length (entered d pcut)) + lench + disc
+                                then [] else [id]
+                    | None => []
+                    end
+                | _ => []
+                end in
+              (* reported only when it fails at BOTH stock-takings (the harness takes two, 300 ms apart) *)
+              let failing := flat_map acct_fails stalls in
+              let stall_acct := map (fun id => clause 4 4 [L id])
+                                    (dedup (filter (fun id => 2 <=? Z.of_nat (length (filter (Z.eqb id) failing))) failing)) in
+              let stall_clause := (if stall_ok =? 0 then [clause 4 3 []] else []) ++ (if cut <? 0 then [] else stall_acct) in
               verdict (diff_if (tree_eqb (enc_net nt) netdump) 1) (map enc_pc fails ++ stall_clause) (enc_net nt)
                       ((if clean then [30] else [31])
                        ++ (if existsb (fun x => ndisc x) nt then [20] else [])
